@@ -378,20 +378,28 @@ class Evaluator:
             raise ValueError(t)
 
     def make_closure(self, e, scope, name):
-        # locals and parameters of the enclosing functions are captured by value, now
-        snap = {}
-        s = scope
+        """Lexical scoping: the closure sees exactly the bindings visible where it is written.
+        Locals and parameters of the enclosing functions are captured by value, now; global-level
+        bindings (globals and variables of top-level blocks) are shared by reference, but bindings
+        added to those scopes later are not visible to the closure."""
         chain = []
-        while s is not None and not s.glob:
+        s = scope
+        while s is not None:
             chain.append(s)
             s = s.parent
-        for sc in reversed(chain):
-            for k, c in sc.vars.items():
-                snap[k] = Cell(c.v)
-        env = Scope(s, False if chain else True)
-        env.vars = snap
-        if not chain:
-            env = scope   # global level: by reference
+        env = None
+        snap = None
+        for sc in reversed(chain):          # outermost first
+            if sc.glob:
+                ns = Scope(env, True)
+                ns.vars = dict(sc.vars)      # same cells, frozen set of names
+                env = ns
+            else:
+                if snap is None:
+                    snap = Scope(env, False)
+                    env = snap
+                for k, c in sc.vars.items():
+                    snap.vars[k] = Cell(c.v)
         return Closure(fn=(e[1], e[2]), free=env, name=name)
 
     # -- expressions
@@ -719,9 +727,15 @@ def evaluate(program, max_steps=200000):
         return {"status": "unspecified", "reason": "stray control transfer"}
     except RecursionError:
         return {"status": "unspecified", "reason": "python recursion"}
-    obs = [canon(v) for v in ev.obs]
+    from .val import TooDeep
+    try:
+        obs = [canon(v) for v in ev.obs]
+        if st == "ok":
+            x = canon(x)
+    except TooDeep:
+        return {"status": "unspecified", "reason": "self-containing container"}
     if st == "ok":
-        return {"status": "ok", "obs": obs, "final": canon(x), "steps": ev.steps, "tags": ev.tags}
+        return {"status": "ok", "obs": obs, "final": x, "steps": ev.steps, "tags": ev.tags}
     return {"status": "error", "obs": obs, "node": x, "steps": ev.steps, "tags": ev.tags}
 
 
@@ -755,6 +769,9 @@ class Gen:
         self.loop_labels = []         # stack of (label|None) for the current function
         self.in_value_pos = 0
         self.stmt_budget = 40
+        self.dead = []               # names whose scope has ended
+        self.use_dead = False        # C04: sometimes use a name that is no longer / not yet visible
+        self.expect_compile_error = None
 
     # -- names
     def fresh(self, prefix="v"):
@@ -776,12 +793,19 @@ class Gen:
     def define(self, name, typ):
         self.scopes[-1][name] = typ
 
-    def pick_name_for_let(self):
-        if self.shadow and self.rng.random() < 0.5:
-            vis = [n for n, t in self.visible() if not t.startswith("fn") and n != "__o"]
+    def pick_name_for_let(self, rhs=None):
+        if self.shadow and self.rng.random() < 0.6:
+            vis = [n for n, t in self.visible() if not t.startswith("fn") and n != "__o" and not n.startswith("i")]
             pool = vis + ["a", "b", "c"]
-            return self.rng.choice(pool)
+            used = names_in(rhs) if rhs is not None else set()
+            pool = [n for n in pool if n not in used]
+            if pool:
+                return self.rng.choice(pool)
         return self.fresh()
+
+    def pop_scope(self):
+        sc = self.scopes.pop()
+        self.dead.extend(sc.keys())
 
     # -- expressions
     def expr(self, typ, depth):
@@ -915,7 +939,7 @@ class Gen:
                 stmts.append(s)
         if self.rng.random() < 0.9:
             stmts.append(("expr", self.expr(typ, depth)))
-        self.scopes.pop()
+        self.pop_scope()
         return stmts
 
     def match_expr(self, typ, depth):
@@ -963,7 +987,7 @@ class Gen:
         if k < 0.45:
             typ = r.choice(["int", "int", "int", "str", "bool", "arr", "float", "map"])
             e = self.expr(typ, depth)
-            name = self.pick_name_for_let()
+            name = self.pick_name_for_let(e)
             self.define(name, typ)
             return ("let", name, e)
         if k < 0.7:
@@ -985,6 +1009,13 @@ class Gen:
     def stmt(self, depth):
         r = self.rng
         self.stmt_budget -= 1
+        if self.use_dead and self.expect_compile_error is None and self.dead and r.random() < 0.08:
+            vis = set(n for n, _ in self.visible())
+            cands = [n for n in self.dead if n not in vis]
+            if cands:
+                n = r.choice(cands)
+                self.expect_compile_error = n
+                return self.obs(("var", n))
         if self.stmt_budget <= 0 or depth <= 0:
             return self.simple_stmt(max(depth, 1))
         k = r.random()
@@ -1001,7 +1032,7 @@ class Gen:
         if k < 0.95:
             self.scopes.append({})
             body = self.stmts(r.randint(1, 3), depth - 1)
-            self.scopes.pop()
+            self.pop_scope()
             return ("block", body)
         return self.simple_stmt(depth)
 
@@ -1019,12 +1050,12 @@ class Gen:
         c = self.expr(r.choice(["bool", "bool", "int"]), depth - 1)
         self.scopes.append({})
         then = self.stmts(r.randint(0, 2), depth - 1) + self.maybe_ctl()
-        self.scopes.pop()
+        self.pop_scope()
         els = None
         if r.random() < 0.5:
             self.scopes.append({})
             els = self.stmts(r.randint(0, 2), depth - 1) + self.maybe_ctl()
-            self.scopes.pop()
+            self.pop_scope()
         return ("if", c, then, els)
 
     def maybe_ctl(self):
@@ -1049,7 +1080,7 @@ class Gen:
         self.scopes.append({})
         inc = ("expr", ("assign", ("var", ctr), ("bin", "+", ("var", ctr), ("lit", 1))))
         body = [inc] + self.stmts(r.randint(1, 3), depth - 1)
-        self.scopes.pop()
+        self.pop_scope()
         self.loop_labels.pop()
         if r.random() < 0.6:
             loop = ("while", label, ("bin", r.choice(["<", "<="]), ("var", ctr), ("lit", bound)), body)
@@ -1081,7 +1112,7 @@ class Gen:
                 body.append(("return", self.expr("int", depth - 1)))
             else:
                 body.append(("expr", self.expr("int", depth - 1)))
-        self.scopes.pop()
+        self.pop_scope()
         self.fn_depth -= 1
         self.loop_labels = saved_labels
         self.define(name, "fn%d" % len(params))
@@ -1180,6 +1211,19 @@ def fix_stmt(s):
     if t == "loop":
         return ("loop", s[1], fix_block(s[2]))
     return s
+
+
+def names_in(e, acc=None):
+    acc = acc if acc is not None else set()
+    if isinstance(e, tuple):
+        if e and e[0] == "var":
+            acc.add(e[1])
+        for x in e:
+            names_in(x, acc)
+    elif isinstance(e, list):
+        for x in e:
+            names_in(x, acc)
+    return acc
 
 
 PRELUDE = "let __o = [];\n"
